@@ -544,6 +544,56 @@ json.dump(out, sys.stdout)
 """
 
 
+def _read_form(text, i):
+    """end index of the form starting at text[i] (after skipping blanks); strings are honoured"""
+    n = len(text)
+    while i < n and text[i] in " \n\t":
+        i += 1
+    start = i
+    depth = 0
+    instr = False
+    while i < n:
+        ch = text[i]
+        if instr:
+            if ch == "\\":
+                i += 1
+            elif ch == '"':
+                instr = False
+                if depth == 0:
+                    return start, i + 1
+        elif ch == '"':
+            instr = True
+        elif ch in "([{":
+            depth += 1
+        elif ch in ")]}":
+            depth -= 1
+            if depth <= 0:
+                return start, i + (1 if depth == 0 else 0)
+        elif ch in " \n\t" and depth == 0:
+            return start, i
+        i += 1
+    return start, n
+
+
+def address_order_hazard(text):
+    """`(for i E1 E2 ...)` compares i (= E1, then numbers) with E2 using `<`, embedded by the macro as
+    a function value. If both bounds are compound forms they may both be fresh containers, which
+    janet orders by address - the loop then depends on the allocator, not on the program. Such
+    expressions are not functions of their arguments and are left out (a bound that is an atom of
+    the generator's alphabet - 1 a x nil - is never a container)."""
+    i = 0
+    while True:
+        i = text.find("(for i", i)
+        if i < 0:
+            return False
+        j = i + len("(for i")
+        s1, e1 = _read_form(text, j)
+        s2, e2 = _read_form(text, e1)
+        if text[s1:s1 + 1] in "([@{~'" and text[s2:s2 + 1] in "([@{~'":
+            return True
+        i = j
+
+
 def c02_corpus(quick):
     """Every expression of props/C02's families (their quick size bounds; in our quick tier only
     trees of size <= 2 and every 5th member of the explicit products), wrapped into an upvalue-free
@@ -565,6 +615,8 @@ def c02_corpus(quick):
         return [], "props/C02 enumerator not usable: %r" % (e,)
     seen, uniq = set(), []
     for name, text in raw:
+        if address_order_hazard(text):
+            continue
         if "&keys" in text or "&named" in text:
             # odd numbers of key arguments make janet read a stale stack slot (nondeterministic
             # value, unrelated defect); our own arity shapes cover &keys / &named with whole pairs
